@@ -21,27 +21,35 @@ CHECK_DEADLOCK FALSE
 """
 
 
+_CALLS = [0]
+
+
 def load(k, ffp):
     """returns (values, dt, label or None, class ok, object or None, m)"""
     import eqsig
     from eqsig import loader
     name = LOADERS[k]
+    _CALLS[0] += 1
+    pos = _CALLS[0] % 2 == 1          # alternate documented positional order / keywords
     if name == "load_values_and_dt":
         v, dt = loader.load_values_and_dt(ffp)
         return v, dt, None, isinstance(v, np.ndarray) and isinstance(dt, float), None, 1.0
     if name == "load_signal(signal)":
-        o = loader.load_signal(ffp, astype="signal")
+        o = loader.load_signal(ffp, "signal") if pos else loader.load_signal(ffp, astype="signal")
         return o.values, o.dt, o.label, type(o) is eqsig.Signal, o, 1.0
     if name == "load_signal(acc_sig)":
-        o = loader.load_signal(ffp, astype="acc_sig")
+        o = loader.load_signal(ffp, "acc_sig") if pos else loader.load_signal(ffp, astype="acc_sig")
         return o.values, o.dt, o.label, type(o) is eqsig.AccSignal, o, 1.0
     if name.startswith("load_sig"):
         m = {"load_sig": 1.0, "load_sig(m=2)": 2.0, "load_sig(m=-3)": -3.0}[name]
-        o = loader.load_sig(ffp, m=m) if m != 1.0 else loader.load_sig(ffp)
+        o = (loader.load_sig(ffp, m) if pos else loader.load_sig(ffp, m=m)) if m != 1.0 else loader.load_sig(ffp)
         return o.values, o.dt, o.label, type(o) is eqsig.Signal, o, m
     m = {"load_asig": 1.0, "load_asig(label)": 1.0, "load_asig(label, m=2)": 2.0, "load_asig(m=-3)": -3.0}[name]
     lab = "label" in name
-    o = loader.load_asig(ffp, load_label=lab, m=m)
+    if pos:
+        o = loader.load_asig(ffp, lab, m) if m != 1.0 else (loader.load_asig(ffp, lab) if lab else loader.load_asig(ffp))
+    else:
+        o = loader.load_asig(ffp, load_label=lab, m=m)
     return o.values, o.dt, o.label, type(o) is eqsig.AccSignal, o, m
 
 
@@ -120,7 +128,10 @@ def build_traces(wd, path, tier, seed):
         dt = min(max(dt, 1e-4), 100.0)
         label = ["m1", "rec 7 east", "a b  c"][tid % 3]
         cls = eqsig.AccSignal if tid % 2 else eqsig.Signal
-        loader.save_signal(ffp, cls(x, dt, label=label))
+        if tid % 4 == 3:
+            loader.save_values_and_dt(ffp, x if tid % 8 == 3 else x.tolist(), dt, label)     # array-level saver, positional order
+        else:
+            loader.save_signal(ffp, cls(x, dt, label=label))
         k = int(rng.integers(len(LOADERS)))
         raised, n2, dt2, y, lab_ok, cls_ok, m = False, 0, 0.0, [], False, False, 1.0
         try:
